@@ -10,6 +10,8 @@
 // stdout
 //   "E <line>"  lines for lean/Driver/Revise.lean (network encoding and the ops, `abs` completed with
 //               the vectors rhs_ and b the C++ had at that moment)
+//               `hom`: when no cluster has correlations, sigma-apr, the stdDev() of the revised observations and rhs_;
+//               the driver answers with the model's homogenised vector, compared with the member b
 //   "R <line>"  observed results, same shape as the driver's output
 #include <cstdio>
 #include <fstream>
@@ -202,6 +204,11 @@ int main()
         IS->tol_abs(-1);
         for (int i = 1; i <= n; i++) { rhs[i-1] = IS->rhs(i); bh[i-1] = IS->test_abs_term(i); }
         IS->tol_abs(tol);
+        bool diagonal = true;
+        for (auto* cl : IS->OD.clusters)
+          if (cl->activeObs() && cl->covariance_matrix.bandWidth() != 0) diagonal = false;
+        std::vector<double> sd(n);
+        for (int i = 1; i <= n; i++) sd[i-1] = IS->ptr_obs(i)->stdDev();
         std::cout << "E abs " << vp::hex(tol) << " " << n;
         for (double x : rhs) std::cout << " " << vp::hex(x);
         for (double x : bh)  std::cout << " " << vp::hex(x);
@@ -212,6 +219,15 @@ int main()
         std::cout << "\n";
         IS->remove_huge_abs_terms();
         obs_flags();
+        if (diagonal) {
+          std::cout << "E hom " << vp::hex(IS->apriori_m_0()) << " " << n;
+          for (double x : sd)  std::cout << " " << vp::hex(x);
+          for (double x : rhs) std::cout << " " << vp::hex(x);
+          std::cout << "\n";
+          std::cout << "R hom";
+          for (double x : bh) std::cout << " " << vp::hex(x);
+          std::cout << "\n";
+        }
       }
       else std::cout << "R bad-op\n";
     }
